@@ -252,6 +252,111 @@ ScopeProg(outer, inner, n, pre) ==
         IF f = "a.asm" THEN <<L(<<"LA">>, "DB", N(9))>> \o defs \o use \o <<DW(<<"LA">>)>>
         ELSE <<DW(<<"LA">>), DB(N(3))>>]
 
+(***************************************************************************)
+(* REFERENCE DEPTH.  "Labels defined in a macro or repetition body are     *)
+(* private to each expansion": a name used in a body means the label of    *)
+(* the INNERMOST enclosing expansion that defines it - however many        *)
+(* expansions lie between the use and that definition - and the global     *)
+(* symbol of that name only when no enclosing expansion defines it.        *)
+(* (asmpars.c FindLocNode walks MomLocHandle and then the whole stack of   *)
+(* saved handles down to the first -1; the families above use a label at   *)
+(* its own level or one level further in only.)                            *)
+(* A member c of the family is a chain of Len(c.ks) nested constructs      *)
+(*   ks    kind of the construct at every level (MACRO = a macro defined   *)
+(*         in front and CALLED from the enclosing body: macro -> macro ->  *)
+(*         macro is the dynamic chain, loops are nested textually)         *)
+(*   D     the levels whose body DEFINES the label LA (several: the inner  *)
+(*         definition shadows the outer one for everything further in)     *)
+(*   gs    the levels expanded with GLOBALSYMBOLS: their labels belong to  *)
+(*         the enclosing expansion (or are global), and they add no link   *)
+(*         to the chain                                                    *)
+(*   fwd   definition after the nested construct and uses before it        *)
+(*         (forward references) or definition first (backward)             *)
+(*   decoy a GLOBAL label LA in front of (PRE) / behind (POST) everything  *)
+(*   via   the name is written in every body (FALSE) or handed down from   *)
+(*         level to level as a macro argument / IRP / IRPN operand (TRUE)  *)
+(* EVERY level from which a definition (or the decoy) is visible uses the  *)
+(* name (value + level number), so one program has references of every     *)
+(* depth 0 .. Len(ks) - min(D); the outermost construct and every level    *)
+(* without GLOBALSYMBOLS is expanded twice.                                *)
+(***************************************************************************)
+RefKindSeq == <<"MACRO", "REPT", "IRP", "IRPN", "IRPC", "WHILE">>
+\* the level whose symbol space receives a label defined at level d (0: the global table)
+RefLand(c, d) == LET ng == {e \in 1..d : e \notin c.gs} IN IF ng = {} THEN 0 ELSE CHOOSE e \in ng : \A f \in ng : f <= e
+\* no two definitions may land in the same symbol space (that would be a double definition in P and in E alike)
+RefValid(c) == /\ c.D # {} /\ c.D \subseteq 1..Len(c.ks) /\ c.gs \subseteq 1..Len(c.ks)
+               /\ \A d1, d2 \in c.D : d1 # d2 => RefLand(c, d1) # RefLand(c, d2)
+               /\ (c.decoy # "NONE" => \A d \in c.D : RefLand(c, d) # 0)
+RefCnt(c, i) == IF i \in c.gs THEN 1 ELSE 2
+RefHasPar(c, i) == c.via /\ c.ks[i] \in {"MACRO", "IRP", "IRPN"}
+RECURSIVE RefTok(_, _)       \* how the body of level i spells the name
+RefTok(c, i) == IF i = 0 THEN "LA" ELSE IF RefHasPar(c, i) THEN "LAQ" \o ToString(i) ELSE RefTok(c, i - 1)
+RefAt(c, i) == c.decoy # "NONE" \/ \E d \in c.D : RefLand(c, d) <= i            \* something of that name is visible at level i
+RefUse(c, i) == DW(<<RefTok(c, i), "+", ToString(i)>>)
+RefDef(c, i) == L(<<"LA">>, "DB", N(40 + i))
+RefFill(c, i) == DB(<<IF c.ks[i] = "IRPC" \/ (c.ks[i] = "IRP" /\ ~c.via) THEN "X" \o ToString(i)
+                      ELSE IF c.ks[i] = "IRPN" THEN "Y" \o ToString(i) ELSE ToString(i)>>)
+RefPre(c, i) == (IF i = 0 THEN <<>> ELSE <<RefFill(c, i)>>) \o (IF c.fwd /\ RefAt(c, i) THEN <<RefUse(c, i)>> ELSE <<>>)
+                \o (IF ~c.fwd /\ i \in c.D THEN <<RefDef(c, i)>> ELSE <<>>)
+RefPost(c, i) == (IF c.fwd /\ i \in c.D THEN <<RefDef(c, i)>> ELSE <<>>) \o (IF ~c.fwd /\ RefAt(c, i) THEN <<RefUse(c, i)>> ELSE <<>>)
+RefHead(c, i) ==       \* opening and closing lines of a loop at level i
+  LET n == RefCnt(c, i)   t == RefTok(c, i - 1)   g == IF i \in c.gs THEN <<GS>> ELSE <<>>
+      x == "X" \o ToString(i)   y == "Y" \o ToString(i)   q == "LAQ" \o ToString(i)   cc == "C" \o ToString(i)
+  IN CASE c.ks[i] = "REPT" -> [open |-> <<L(<<>>, "REPT", Cs(<<N(n)>> \o g))>>, close |-> <<ENDM>>]
+       [] c.ks[i] = "IRP"  -> [open |-> <<L(<<>>, "IRP", Cs((IF c.via THEN <<<<q>>>> \o [k \in 1..n |-> <<t>>]
+                                                             ELSE <<<<x>>>> \o [k \in 1..n |-> N(k)]) \o g))>>, close |-> <<ENDM>>]
+       [] c.ks[i] = "IRPN" -> [open |-> <<L(<<>>, "IRPN", Cs(<<N(2), <<IF c.via THEN q ELSE x>>, <<y>>>>
+                                                              \o [k \in 1..(2 * n) |-> IF k % 2 = 0 THEN N(4 + k \div 2)
+                                                                                       ELSE IF c.via THEN <<t>> ELSE N((k + 1) \div 2)] \o g))>>,
+                               close |-> <<ENDM>>]
+       [] c.ks[i] = "IRPC" -> [open |-> <<L(<<>>, "IRPC", Cs(<<<<x>>, <<QUOTE>> \o [k \in 1..n |-> ToString(k)] \o <<QUOTE>>>> \o g))>>,
+                               close |-> <<ENDM>>]
+       [] OTHER            -> [open |-> <<L(<<cc>>, "SET", N(n)), L(<<>>, "WHILE", Cs(<<<<cc>>>> \o g))>>,
+                               close |-> <<L(<<cc>>, "SET", <<cc, "-", "1">>), ENDM>>]
+RECURSIVE RefBlk(_, _)
+RefBlk(c, i) ==
+  LET inner == IF i < Len(c.ks) THEN RefBlk(c, i + 1) ELSE NoBlk
+      bd == RefPre(c, i) \o inner.body \o RefPost(c, i)
+      g == IF i \in c.gs THEN <<GS>> ELSE <<>>
+      m == "M" \o ToString(i)
+  IN IF c.ks[i] = "MACRO"
+     THEN [defs |-> inner.defs \o <<L(<<m>>, "MACRO", Cs((IF c.via THEN <<<<"LAQ" \o ToString(i)>>>> ELSE <<>>) \o g))>> \o bd \o <<ENDM>>,
+           body |-> [k \in 1..RefCnt(c, i) |-> L(<<>>, m, IF c.via THEN <<RefTok(c, i - 1)>> ELSE <<>>)]]
+     ELSE LET h == RefHead(c, i) IN [defs |-> inner.defs, body |-> h.open \o bd \o h.close]
+RefDepthProg(c) ==
+  LET b == RefBlk(c, 1)
+      dec == L(<<"LA">>, "DB", N(9))
+  IN [f \in {"a.asm"} |->
+        <<DB(N(7))>> \o (IF c.decoy = "PRE" THEN <<dec>> ELSE <<>>) \o b.defs \o RefPre(c, 0) \o b.body \o RefPost(c, 0)
+        \o (IF c.decoy = "POST" THEN <<dec>> ELSE <<>>)]
+
+(***************************************************************************)
+(* What the manual does NOT decide about such references (section FORWARD: *)
+(* "Forward references may lead to situations where AS accesses a symbol   *)
+(* from a higher section in the first pass.  This is not a disaster by     *)
+(* itself as long as the correct symbol is used in the second pass, but    *)
+(* accidents ... may happen ... The second pass will not be started"):     *)
+(* a use that comes BEFORE the definition it means while a symbol of the   *)
+(* same name further out (an enclosing expansion's, or the global one) is  *)
+(* already defined takes that one in the first pass, and whether a second  *)
+(* pass corrects it depends on the rest of the program.  flat = the        *)
+(* unresolved statement list [l, sc, pos] of ExpandDecl (field raw).       *)
+(***************************************************************************)
+PassDependent(flat) ==
+  LET dj == {j \in DOMAIN flat : IsLabelDef(flat[j])}
+      own(j) == IF flat[j].sc = <<>> THEN <<0, 0>> ELSE flat[j].sc[1]
+      nm(j) == LabName(flat[j].l)
+      multi == {nm(a) : a \in {a \in dj : \E b \in dj : nm(a) = nm(b) /\ own(a) # own(b)}}
+  IN multi # {} /\
+     \E i \in DOMAIN flat : \E x \in DOMAIN flat[i].l :
+        LET t == flat[i].l[x]
+            chain == flat[i].sc \o <<<<0, 0>>>>                   \* private spaces innermost first, then the global table
+            defsIn(k) == {j \in dj : nm(j) = t /\ own(j) = chain[k]}
+            hits == {k \in DOMAIN chain : defsIn(k) # {}}
+        IN /\ t \in multi /\ ~(i \in dj /\ x = 1) /\ hits # {}
+           /\ LET k0 == CHOOSE k \in hits : \A k2 \in hits : k <= k2
+              IN (\A j \in defsIn(k0) : j > i) /\ (\E k \in hits : k > k0 /\ \E j \in defsIn(k) : j < i)
+
 \* INCLUDE of generated files (nested up to 3), the included file uses the constructs of the including one
 InclProg(depth, viaMacro) ==
   LET inc(i) == "I" \o ToString(i) \o ".INC"
